@@ -47,3 +47,162 @@ def config_tables(repo):
             "/-- `dask.config.deprecations` (deprecated key ↦ new key, `none` = removed) -/\n"
             f"def deprecations : List (String × Option String) := [\n{body}]\n\n"
             "end Dask.Generated.ConfigTables\n")
+
+
+# ---------------------------------------------------------------------------------------------
+# C53 / C51
+# ---------------------------------------------------------------------------------------------
+fp("dask/utils.py", "SerializableLock.__init__", "SerializableLock.__getstate__", "SerializableLock.__setstate__",
+   "SerializableLock.acquire", "SerializableLock.release")
+fp("dask/rewrite.py", "head", "args", "Traverser.next", "Traverser.skip", "Traverser.copy", "RewriteRule.__init__",
+   "RewriteRule._apply", "RuleSet.add", "RuleSet.iter_matches", "RuleSet._rewrite", "_bottom_up", "_match",
+   "_process_match", "_instantiates", "_substitute")
+
+# ---------------------------------------------------------------------------------------------
+# C18: dask/utils.py  format_bytes / parse_bytes / parse_timedelta tables
+# ---------------------------------------------------------------------------------------------
+fp("dask/utils.py", "format_bytes", "parse_bytes", "parse_timedelta", "key_split", "natural_sort_key")
+
+
+def _const_int(node):
+    """int literal or a**b / a*b / a+b of int literals (the shapes used by the size tables)"""
+    if isinstance(node, ast.Constant) and isinstance(node.value, int) and not isinstance(node.value, bool):
+        return node.value
+    if isinstance(node, ast.BinOp) and isinstance(node.op, (ast.Pow, ast.Mult, ast.Add)):
+        a, b = _const_int(node.left), _const_int(node.right)
+        return a ** b if isinstance(node.op, ast.Pow) else a * b if isinstance(node.op, ast.Mult) else a + b
+    raise ExtractError(f"not a constant integer expression: {ast.dump(node)[:80]}")
+
+
+def _const_num(node):
+    if isinstance(node, ast.Constant) and isinstance(node.value, float):
+        return node.value
+    return _const_int(node)
+
+
+def _replay_table(tree, names, main):
+    """Replays, in order, the module-level statements that build the dict `main` (helper dicts in `names`):
+    a dict literal of constant numbers, `X = {dictcomp}`, `X.update({dictcomp})`, `X.update(Y)`.
+    Only the names in `names` and the comprehension variables k, v may occur. Anything else: ExtractError."""
+    allowed = set(names) | {"k", "v"}
+    ns = {}
+    seen = False
+    for node in tree.body:
+        target = None
+        if isinstance(node, ast.Assign) and len(node.targets) == 1 and isinstance(node.targets[0], ast.Name):
+            target = node.targets[0].id
+        elif isinstance(node, ast.Expr) and isinstance(node.value, ast.Call) and isinstance(node.value.func, ast.Attribute) \
+                and isinstance(node.value.func.value, ast.Name) and node.value.func.attr == "update":
+            target = node.value.func.value.id
+        if target not in names:
+            continue
+        seen = True
+        if isinstance(node, ast.Assign) and isinstance(node.value, ast.Dict):
+            d = {}
+            for k, v in zip(node.value.keys, node.value.values):
+                if not (isinstance(k, ast.Constant) and isinstance(k.value, str)):
+                    raise ExtractError(f"{target}: non-literal key")
+                d[k.value] = _const_num(v)
+            ns[target] = d
+            continue
+        for sub in ast.walk(node):
+            if isinstance(sub, ast.Name) and sub.id not in allowed:
+                raise ExtractError(f"{target}: unexpected name {sub.id!r} in table construction")
+            if isinstance(sub, (ast.Call,)) and not isinstance(sub.func, ast.Attribute):
+                raise ExtractError(f"{target}: unexpected call in table construction")
+            if isinstance(sub, ast.Attribute) and sub.attr not in ("items", "lower", "upper", "update"):
+                raise ExtractError(f"{target}: unexpected attribute {sub.attr!r} in table construction")
+        if isinstance(node, ast.Assign) and not isinstance(node.value, ast.DictComp):
+            raise ExtractError(f"{target}: expected a dict comprehension")
+        code = compile(ast.Module(body=[node], type_ignores=[]), "<table>", "exec")
+        exec(code, {"__builtins__": {}}, ns)  # only dict/str operations on the literals above can run here
+    if not seen or main not in ns:
+        raise ExtractError(f"table {main} not found")
+    return ns[main]
+
+
+def _format_bytes_shape(tree):
+    from tables import find_def
+    fn = find_def(tree, "format_bytes")
+    body = [n for n in fn.body if not (isinstance(n, ast.Expr) and isinstance(n.value, ast.Constant))]
+    if len(body) != 2 or not isinstance(body[0], ast.For) or not isinstance(body[1], ast.Return):
+        raise ExtractError("format_bytes: expected `for prefix, k in (...): if ...: return ...` then `return f'{n} B'`")
+    loop, last = body
+    if not (isinstance(loop.iter, ast.Tuple) and all(isinstance(e, ast.Tuple) and len(e.elts) == 2 for e in loop.iter.elts)):
+        raise ExtractError("format_bytes: prefix table is not a tuple of pairs")
+    prefixes = []
+    for e in loop.iter.elts:
+        if not (isinstance(e.elts[0], ast.Constant) and isinstance(e.elts[0].value, str)):
+            raise ExtractError("format_bytes: prefix is not a string literal")
+        prefixes.append((e.elts[0].value, _const_int(e.elts[1])))
+    if len(loop.body) != 1 or not isinstance(loop.body[0], ast.If) or loop.body[0].orelse:
+        raise ExtractError("format_bytes: loop body is not a single `if`")
+    test = loop.body[0].test
+    ok = (isinstance(test, ast.Compare) and len(test.ops) == 1 and isinstance(test.ops[0], ast.GtE)
+          and isinstance(test.left, ast.Name) and test.left.id == "n"
+          and isinstance(test.comparators[0], ast.BinOp) and isinstance(test.comparators[0].op, ast.Mult)
+          and isinstance(test.comparators[0].left, ast.Name) and test.comparators[0].left.id == "k"
+          and isinstance(test.comparators[0].right, ast.Constant) and isinstance(test.comparators[0].right.value, float))
+    if not ok:
+        raise ExtractError("format_bytes: band test is not `n >= k * <float>`")
+    factor = test.comparators[0].right.value
+    ret = loop.body[0].body
+    if len(ret) != 1 or not isinstance(ret[0], ast.Return) or not isinstance(ret[0].value, ast.JoinedStr):
+        raise ExtractError("format_bytes: band branch is not `return f'...'`")
+    parts = ret[0].value.values
+    ok = (len(parts) == 4 and isinstance(parts[0], ast.FormattedValue) and isinstance(parts[0].value, ast.BinOp)
+          and isinstance(parts[0].value.op, ast.Div) and isinstance(parts[0].format_spec, ast.JoinedStr)
+          and isinstance(parts[1], ast.Constant) and parts[1].value == " "
+          and isinstance(parts[2], ast.FormattedValue) and isinstance(parts[2].value, ast.Name) and parts[2].value.id == "prefix"
+          and isinstance(parts[3], ast.Constant) and isinstance(parts[3].value, str))
+    if not ok:
+        raise ExtractError("format_bytes: band branch is not f'{n / k:.<d>f} {prefix}<unit>'")
+    spec = "".join(p.value for p in parts[0].format_spec.values if isinstance(p, ast.Constant))
+    import re
+    m = re.fullmatch(r"\.(\d+)f", spec)
+    if not m:
+        raise ExtractError(f"format_bytes: unexpected format spec {spec!r}")
+    lp = last.value
+    ok = (isinstance(lp, ast.JoinedStr) and len(lp.values) == 2 and isinstance(lp.values[0], ast.FormattedValue)
+          and isinstance(lp.values[0].value, ast.Name) and lp.values[0].value.id == "n" and lp.values[0].format_spec is None
+          and isinstance(lp.values[1], ast.Constant))
+    if not ok:
+        raise ExtractError("format_bytes: fallback is not f'{n} <unit>'")
+    return prefixes, factor, int(m.group(1)), parts[3].value, lp.values[1].value
+
+
+def _ratio(v):
+    if isinstance(v, float):
+        n, d = v.as_integer_ratio()
+        if n < 0:
+            raise ExtractError("negative multiplier")
+        return n, d
+    return int(v), 1
+
+
+@table("ByteTables")
+def byte_tables(repo):
+    tree = parse(repo, "dask/utils.py")
+    prefixes, factor, decimals, unit, plain = _format_bytes_shape(tree)
+    fnum, fden = factor.as_integer_ratio()
+    byte_sizes = _replay_table(tree, ["byte_sizes"], "byte_sizes")
+    td = _replay_table(tree, ["timedelta_sizes", "tds2"], "timedelta_sizes")
+    if not all(isinstance(v, int) and v > 0 for v in byte_sizes.values()):
+        raise ExtractError("byte_sizes: expected positive integer multipliers")
+    out = ["namespace Dask.Generated.ByteTables\n",
+           "/-- the `(prefix, k)` table of `format_bytes`, in the order it is scanned -/",
+           "def formatPrefixes : List (String × Nat) := [" +
+           ", ".join(f"({lean_str(p)}, {k})" for p, k in prefixes) + "]\n",
+           f"/-- the band factor `{factor!r}` of `n >= k * {factor!r}` as the exact value of that binary64 number -/",
+           f"def factorNum : Nat := {fnum}", f"def factorDen : Nat := {fden}\n",
+           "/-- number of decimals of the `f` format spec, unit suffix, and the suffix of the plain branch -/",
+           f"def formatDecimals : Nat := {decimals}", f"def formatUnit : String := {lean_str(unit)}",
+           f"def formatPlainSuffix : String := {lean_str(plain)}\n",
+           "/-- `dask.utils.byte_sizes` after its three construction statements (lower-cased unit ↦ multiplier) -/",
+           "def byteSizes : List (String × Nat) := [\n" +
+           ",\n".join(f"  ({lean_str(k)}, {v})" for k, v in byte_sizes.items()) + "]\n",
+           "/-- `dask.utils.timedelta_sizes` (unit ↦ multiplier as the exact ratio num/den of the int / binary64 value) -/",
+           "def timedeltaSizes : List (String × (Nat × Nat)) := [\n" +
+           ",\n".join("  ({}, ({}, {}))".format(lean_str(k), *_ratio(v)) for k, v in td.items()) + "]\n",
+           "end Dask.Generated.ByteTables\n"]
+    return "\n".join(out)
